@@ -12,6 +12,7 @@ package main
 import (
 	"bufio"
 	"fmt"
+	"os"
 	"sort"
 	"strings"
 
@@ -79,7 +80,7 @@ func runUWire(w *bufio.Writer, seed uint64, n int, _ []string) {
 	for ci := 0; ci < n; ci++ {
 		r := root.Fork()
 		hl := r.Range(1, 700)
-		if r.Intn(4) == 0 {
+		if r.Intn(8) == 0 || os.Getenv("VERIF_TIER") == "thorough" && r.Intn(3) == 0 {
 			hl = r.Range(700, 2600)
 		}
 		hello := testData(r, hl)
@@ -183,6 +184,8 @@ func runUWire(w *bufio.Writer, seed uint64, n int, _ []string) {
 		detailBase := fmt.Sprintf("builder=%s %+v plans=%+v hello=%x mseed=%d", kind, ips.FrameBuilder, ips.InitialPackets, hello, mseed)
 		var rx *quic.VerifRetx
 		var pns []int64
+		pktFrames := map[int64][]quic.VerifRange{}
+		ackedCov := make([]bool, hl)
 		broken := false
 		// one Pack call under the script; logs the case entry
 		pack := func(probe, ping, first bool) *quic.VerifRetxPacket {
@@ -220,6 +223,7 @@ func runUWire(w *bufio.Writer, seed uint64, n int, _ []string) {
 			}
 			sentAny = true
 			pns = append(pns, pkt.PN)
+			pktFrames[pkt.PN] = pkt.Frames
 			if !uwirePacketCheck(w, pkt, hello, det) {
 				broken = true
 			}
@@ -269,7 +273,13 @@ func runUWire(w *bufio.Writer, seed uint64, n int, _ []string) {
 		for step := r.Intn(10); step > 0 && !broken && len(pns) > 0; step-- {
 			switch r.Intn(4) {
 			case 0:
-				rx.Ack(pns[r.Intn(len(pns))])
+				if pn := pns[r.Intn(len(pns))]; rx.Ack(pn) {
+					for _, fr := range pktFrames[pn] {
+						for b := fr.Off; b < fr.Off+fr.Len && b < int64(hl); b++ {
+							ackedCov[b] = true
+						}
+					}
+				}
 			case 1, 2:
 				rx.Lose(pns[r.Intn(len(pns))])
 				if r.Bool() {
@@ -278,6 +288,33 @@ func runUWire(w *bufio.Writer, seed uint64, n int, _ []string) {
 			}
 			if pkt := pack(r.Intn(3) == 0, r.Bool(), false); pkt != nil {
 				dist["retx-packets"]++
+			}
+		}
+		// ---- everything still outstanding is lost (PTO): retransmit until the queue is empty ----
+		if !broken && len(firstFlight) > 0 && len(firstFlight) < 12 {
+			for _, pn := range rx.Outstanding() {
+				rx.Lose(pn)
+			}
+			cov := append([]bool{}, ackedCov...)
+			for k := 0; k < 40 && !broken; k++ {
+				pkt := pack(k%3 == 2, false, false)
+				if pkt == nil {
+					break
+				}
+				dist["drain-packets"]++
+				if fs, err := readFrames(pkt.Wire); err == nil {
+					for _, f := range fs {
+						for b := 0; f.typ == 6 && b < len(f.data) && int(f.off)+b < hl; b++ {
+							cov[int(f.off)+b] = true
+						}
+					}
+				}
+			}
+			for b, c := range cov {
+				if !c && !broken {
+					monfail(w, "uwire/retx/incomplete", fmt.Sprintf("after losing every outstanding Initial packet and retransmitting until nothing is queued, byte %d of %d is neither acknowledged nor re-sent", b, hl), detailBase)
+					break
+				}
 			}
 		}
 		if len(pkts) > 0 {
@@ -411,7 +448,7 @@ func uwirePlans(w *bufio.Writer, root *u.Rng, n int, dist map[string]int) {
 			hl, plan = fixed[i].hl, fixed[i].plan
 		} else {
 			hl = r.Range(1, 1500)
-			if r.Intn(5) == 0 {
+			if r.Intn(10) == 0 {
 				hl = r.Range(1500, 3000)
 			}
 			ndg := r.Range(1, 4)
